@@ -41,9 +41,12 @@ CLAIMED = {
     text="Deterministic simulation of a control-reader, a data-reader and up to three stream clients (file objects from get_file read in small chunks) that share one file object through two ArMembers and two lazily created TarFile readers, over packages assembled independently in any of the 5 x 5 part compressions, three tar formats and permuted member orders; the seeded scheduler interleaves whole queries (debcontrol, scripts, md5sums, has_file / in / get_content / [] under the three path spellings, name listings) with partial chunk reads. Results are compared with the packed dictionaries; structurally defective member sets (lost / duplicated parts) must raise DebError from the constructor; runs are repeated under three hash seeds. Seeded sampling.",
     ref="5.C07", note="Trusted: the independent assembler (stdlib tarfile/gzip/bz2/lzma + 15-line ar writer, cross-checked against dpkg-deb in the fidelity self-test); text-mode reads follow Python's text layer (universal newlines).",
     technique="deterministic simulation: seeded interleaving of part readers and chunked stream clients over one shared file object vs. packed dictionaries; hash-seed sweep"),
+ "C15": dict(level="exploration",
+    text="Deterministic simulation of the parser's one seam and one history: a simulator-owned line stream (well-formed changelog with seeded line loss, duplication, insertion from a line-class table and truncation; delivered as str / bytes / list / lazy iterator / file object; allow_empty_author on and off) followed by a seeded editing history (new_block, add_change, attribute assignments). Relations checked over the recorded history: the lenient constructor never raises; strict parsing raises ChangelogParseError exactly when the lenient parse of the same stream warned (process-global warning state neutralised); whenever str() succeeds, re-parsing yields the same blocks and re-formatting the identical text. Seeded sampling; there is no schedule dimension.",
+    ref="5.C15", note="Trusted: the relations themselves (no executable reference parser); editing calls use well-formed values only; valid UTF-8 input.",
+    technique="deterministic simulation: seeded stream-fault injection (drop/duplicate/insert/truncate lines) + edit histories, relational oracles"),
 }
-PENDING = {k: "Claimed in DESIGN.md section 5 (simulation target); its check is not built yet in this revision - listed here only until it is." for k in
-           "C15".split()}
+PENDING = {}
 NA = {
  "C01": "Pure function of the line list (quantifier: inputs only): no state, seam, fault or order of operations for a simulator to own; it is an enumeration / property-based-testing target (DESIGN.md section 2).",
  "C02": "Pure function of (text, input form, armor flag); the 'configurations' are argument shapes, not schedules or faults; input objects are iterated once, sequentially (DESIGN.md section 2).",
